@@ -448,6 +448,15 @@ class TypeState:
         for i in range(len(blk.stmts)):
             for w in ws_by_i.get(i, []):
                 self.transfer_write(q, w, st, mode)
+            # `let mut entry = self.orders[id];` after a test of `self.orders[id].order.status`: the working copy starts in the
+            # abstract state the table slot is known to be in at this point
+            s_ = blk.stmts[i]
+            if s_.k == "assign" and not s_.place.proj and s_.rv.k == "use" and (s_.place.ty or "").endswith("OrderEntry") and not (s_.place.ty or "").startswith("&"):
+                src = strip(q.ev.rvalue(s_.rv, (b, i)))
+                if _elem(src) is not None:
+                    k_src = self.canon_key(st, ("field", src, "order", ""))
+                    if k_src in st:
+                        st[self.canon_key(st, ("field", ("local", s_.place.local), "order", ""))] = st[k_src]
         t = blk.term
         if t and t.k == "call":
             c = [c for c in q.calls() if c.b == b]
